@@ -1,4 +1,5 @@
 import Bluge.Analysis
+import Bluge.C18.StemDrv
 /-! Model driver for C18 (line protocol, see go/harness/c18/main.go for the op lines).
 For every line the driver (1) replays the modelled component on the stage input carried by the op line
 and prints the model's token stream, which ./check compares with the real one as strings, and
@@ -215,6 +216,16 @@ def judgeTokenizer (input : Bytes) (impl : String) (kind : String) : String :=
       else if !decide (Ordered ts) then "bad:tokens-out-of-order-" ++ kind
       else "ok"
 
+/-- `conc` / `concp`: in the model analysis is a FUNCTION of the bytes, so one analyzer value used by several
+goroutines at once answers exactly as a fresh one used alone: the model result is always `same`. -/
+def judgeConc (impl : String) (br : String) : String × String :=
+  let v :=
+    if impl == "same" then "ok"
+    else if impl.startsWith "differs" then "bad:analyzer-not-reentrant"
+    else if impl.startsWith "panic" then "bad:panic-concurrent"
+    else "na"
+  ((if impl == "ref-panic" || impl == "bad-op" then impl else "same"), v ++ " br=" ++ br ++ (if impl == "same" then "," ++ br ++ "-same" else ""))
+
 def step (_ : Unit) (op : String) (impl : String) : Unit × String :=
   let ws := op.splitOn " "
   let out : String × String := match ws with
@@ -294,6 +305,10 @@ def step (_ : Unit) (op : String) (impl : String) : Unit × String :=
       match gap.toInt?, (streams.splitOn "|").mapM parseStream with
       | some g, some fs => (showDoc (docAnalyze g fs 0), "ok br=doc")
       | _, _ => ("bad-op", "na")
+    | "stem" :: _ => C18S.stemStep ws impl
+    | "util" :: _ => C18S.stemStep ws impl
+    | "conc" :: _ => judgeConc impl "conc"
+    | "concp" :: _ => judgeConc impl "concp"
     | _ => ("bad-op", "na")
   ((), out.1 ++ sep ++ out.2)
 
